@@ -27,6 +27,8 @@ _code_matches = []
 
 
 def find_core_tokens(string, root):
+    # drop leftovers of a previous run that was aborted before InlineCode.find() consumed them
+    del _code_matches[:]
     delimiters = []
     matches = []
     escaped = False
